@@ -495,6 +495,11 @@ def check_property(pid, tier='quick', seed=0):
         for h in want:
             d = cexmod.run_harness(h)
             bounded.append(dict(harness=h, bound=d.get('bound'), cases=d.get('cases'), witnesses=d.get('witnesses'), verdict=d.get('status'), counterexample=d.get('counterexample'), cmd=d.get('cmd'), note=d.get('note')))
+            needle = cexmod.ONLY_IF.get((pid, h))
+            if d.get('status') == 'counterexample' and needle and needle not in str(d.get('counterexample')):
+                bounded[-1]['verdict'] = 'passed for this property (the counterexample found concerns another property)'
+                bounded[-1]['counterexample'] = None
+                continue
             if d.get('status') == 'counterexample' and pid in cexmod.PANIC_ONLY and 'PANIC' not in str(d.get('counterexample')):
                 # a functional disagreement belongs to another property; for this one only a panic counts
                 bounded[-1]['verdict'] = 'no panic (a functional counterexample was found: see the property it belongs to)'
@@ -504,7 +509,7 @@ def check_property(pid, tier='quick', seed=0):
                 bounded_cex = d
             if d.get('status') == 'unavailable':
                 undecided.append('bounded stand-in %s did not run or ran vacuously: %s' % (h, (d.get('note') or '')[-300:]))
-            for kfj in ([] if pid in cexmod.PANIC_ONLY else d.get('known', [])):
+            for kfj in ([] if (pid in cexmod.PANIC_ONLY or cexmod.ONLY_IF.get((pid, h))) else d.get('known', [])):
                 listed = [k for k in kf.get('findings', []) if k.get('id') == kfj.get('known_finding') and pid in k.get('properties', [])]
                 if listed:
                     line = 'KNOWN-FINDING: property=%s %s -- %s' % (pid, listed[0]['id'], listed[0].get('what', ''))
